@@ -131,7 +131,7 @@ def run(ctx):
         seen.add(key)
         for variant in range(2):
             text = spell(hist, rng, canonical=(variant == 0))
-            tr = splitfam.tok_trace(len(traces), text, hist)
+            tr = splitfam.tok_trace(len(traces), text, hist, fallback=True)
             ctx.evals()
             if tr is None:
                 unspellable += 1
